@@ -57,43 +57,115 @@ def class_chars(rx):
     return out
 
 
+JS_UNESCAPE = {"t": "\t", "n": "\n", "r": "\r", "f": "\f", "v": "\v", "\\": "\\", "'": "'"}
+
+
+def js_string(x):
+    out, i = "", 0
+    while i < len(x):
+        if x[i] == "\\" and i + 1 < len(x):
+            n = x[i + 1]
+            if n == "u":
+                out += chr(int(x[i + 2:i + 6], 16))
+                i += 6
+                continue
+            out += JS_UNESCAPE.get(n, n)
+            i += 2
+            continue
+        out += x[i]
+        i += 1
+    return out
+
+
+def ts_aliases(text):
+    """-> (unions: name -> set of strings, conds: name -> (class alias, then alias, else alias or None))"""
+    unions, conds = {}, {}
+    for m in re.finditer(r"type\s+(\w+)\s*=\s*((?:'(?:\\.|[^'\\])*'\s*\|?\s*)+);", text):
+        unions[m.group(1)] = {js_string(x) for x in re.findall(r"'((?:\\.|[^'\\])*)'", m.group(2))}
+    for m in re.finditer(r"type\s+(\w+)<(\w+)>\s*=\s*\2\s+extends\s+`\$\{(\w+)\}\$\{infer\s+(\w+)\}`\s*\?\s*(\w+)<\4>\s*:\s*(?:(\w+)<\2>|\2)\s*;", text):
+        conds[m.group(1)] = (m.group(3), m.group(5), m.group(6))
+    return unions, conds
+
+
+def stripped_language_gaps(entry, unions, conds, skip, maxlen=3):
+    """Words over the skip alphabet (up to maxlen, enough for the one- and two-character members seen in unions) that the
+    conditional-type automaton cannot strip completely. NFA: state = (alias, pending suffix); a conditional alias may
+    consume any member of its class and continue in its then-alias, or fall to its else-alias; falling off the end
+    (else = the input itself) accepts. Exhaustive over skip^<=maxlen, then closed by a subset-construction fixpoint."""
+    def eps(states):
+        out, work = set(states), list(states)
+        while work:
+            a, pend = work.pop()
+            if pend == "" and a in conds and conds[a][2] is not None:
+                n = (conds[a][2], "")
+                if n not in out:
+                    out.add(n)
+                    work.append(n)
+        return out
+
+    def step(states, ch):
+        nxt = set()
+        for a, pend in states:
+            if pend:
+                if pend[0] == ch:
+                    nxt.add((a, pend[1:]))
+                continue
+            if a in conds:
+                cls, then, _ = conds[a]
+                for w in unions.get(cls, ()):
+                    if w and w[0] == ch:
+                        nxt.add((then, w[1:]))
+        return eps(nxt)
+
+    def accepting(states):
+        # a state accepts when nothing is pending and its else-chain ends in the input itself
+        return any(pend == "" and a in conds for a, pend in states)
+
+    start = frozenset(eps({(entry, "")}))
+    seen, work, bad = {start: ""}, [start], []
+    while work:
+        S = work.pop()
+        for ch in skip:
+            N = frozenset(step(S, ch))
+            w = seen[S] + ch
+            if not accepting(N):
+                bad.append(w)
+                continue
+            if N not in seen:
+                seen[N] = w
+                work.append(N)
+    return bad
+
+
 def run(cx):
     syn = cx.syn()
     fb = cx.mir("artifact_content", "isograph_lang_parser")
     skip = class_chars(skip_class(syn))
     cx.floor("R24.whitespace-table characters skipped by the iso lexer", len(skip), 3)
-    # the WhitespaceCharacter union in the generated text
+    # the whitespace-stripping type in the generated text, read as an automaton
     T = templates.Templates(syn, os.environ.get("VERIF_REPO", "/repo"))
     gen_text = None
     f = fb.one(r"artifact_content::iso_overload_file::build_iso_overload_artifact$")
-    for s in f.stmts():
-        for o in s.ops:
-            c = op_const(o)
-            if c and "str" in c and "WhitespaceCharacter" in c["str"]:
-                gen_text = c["str"]
-    for t in f.calls():
-        for o in t.args:
-            c = op_const(o)
-            if c and "str" in c and "WhitespaceCharacter" in c["str"]:
-                gen_text = c["str"]
+    for c in [op_const(o) for s_ in f.stmts() for o in s_.ops] + [op_const(o) for t in f.calls() for o in t.args]:
+        if c and "str" in c and "MatchesWhitespaceAndString" in c["str"] and "extends `${TString}${string}`" in c["str"]:
+            gen_text = c["str"]
     if gen_text is None:
-        raise AnchorError("generated WhitespaceCharacter type not found in build_iso_overload_artifact")
-    m = re.search(r"type WhitespaceCharacter = ([^;]+);", gen_text)
-    members = re.findall(r"'((?:\\.|[^'\\])*)'", m.group(1))
-    js_unescape = {"\\t": "\t", "\\n": "\n", "\\r": "\r", "\\f": "\f", "\\v": "\v", " ": " "}
-    ws = set()
-    for x in members:
-        if x in js_unescape:
-            ws.add(js_unescape[x])
-        elif re.fullmatch(r"\\u[0-9A-Fa-f]{4}", x):
-            ws.add(chr(int(x[2:], 16)))
-        else:
-            ws.add(x)
+        raise AnchorError("generated MatchesWhitespaceAndString type not found in build_iso_overload_artifact")
+    m = re.search(r"=\s*(\w+)<T>\s+extends\s+`\$\{TString\}\$\{string\}`", gen_text)
+    if not m:
+        raise AnchorError("cannot find the stripping type applied to T in MatchesWhitespaceAndString")
+    entry = m.group(1)
+    unions, conds = ts_aliases(gen_text)
+    if entry not in conds:
+        raise AnchorError("stripping type %s is not a recursive conditional type" % entry)
+    missing = stripped_language_gaps(entry, unions, conds, skip)
+    cx.extra["whitespace_type"] = {"entry": entry, "unions": {k: sorted(v) for k, v in unions.items()}, "conditionals": conds}
     for ch in skip:
-        cx.ob("R24.whitespace-table", "skip-char-U+%04X-in-WhitespaceCharacter" % ord(ch), ch in ws,
-              "the iso lexer skips U+%04X before the first token, but the generated WhitespaceCharacter union (%s) does "
-              "not contain it: a literal that starts with this character is compiled but matches no overload in iso.ts" % (
-                  ord(ch), m.group(1).strip()), f.loc())
+        bad = [w for w in missing if w.endswith(ch)]
+        cx.ob("R24.whitespace-table", "skip-char-U+%04X-in-WhitespaceCharacter" % ord(ch), not bad,
+              "the iso lexer skips any run of its skip class before the first token, but the generated %s<T> type does not "
+              "strip %s: a literal that starts this way is compiled but matches no overload in iso.ts" % (
+                  entry, [repr(w) for w in bad[:3]]), f.loc())
     # ---- R24.header-separators ---------------------------------------------------------------------
     pats = []
     for mac in T.macros_in(r"iso_overload_file\.rs$"):
@@ -141,3 +213,56 @@ def run(cx):
         cx.ob("R24.prefix-order", g.id + "|longest-prefix-first", bool(cmps) and bool(sorts),
               "the overload list is not sorted with a comparator that checks starts_with in both directions: "
               "`Type.Foo` can shadow `Type.FooBar`", g.loc())
+    # ---- R24.prefix-order: the comparator itself is "prefix-longer-first, otherwise plain string order" ---------
+    sf = [g for g in fb.fns.values() if g.crate == "artifact_content" and g.file.endswith("iso_overload_file.rs")
+          and sum(1 for t in g.calls() if re.search(r"core::str::<impl str>::starts_with$", t.callee or "")) >= 2]
+    cx.floor("R24.prefix-order comparators", len(sf), 1)
+
+    def root(g, o, depth=0):
+        pl = op_place(o)
+        if pl is None or depth > 8:
+            return ("?",)
+        if 1 <= pl.local <= g.argc:
+            return ("param", pl.local)
+        ds = local_defs(g, pl.local)
+        if len(ds) != 1:
+            return ("multi", pl.local)
+        d = ds[0]
+        if hasattr(d, "rv"):
+            if d.rv in ("use", "ref", "copy_for_deref", "cast"):
+                src = {"copy": [d.place.local, []]} if d.place is not None else (d.ops[0] if d.ops else None)
+                return root(g, src, depth + 1)
+            return ("stmt", d.rv)
+        if re.search(r"Lookup>?::lookup$|::as_str$|::as_bytes$|Deref>?::deref$|Borrow.*::borrow$|AsRef.*::as_ref$", d.declared or d.callee or ""):
+            return root(g, d.args[0], depth + 1)
+        return ("call", (d.callee or d.declared or "?").split("::")[-1]) + root(g, d.args[0], depth + 1) if d.args else ("call", d.callee)
+
+    for g in sf:
+        sws = [t for t in g.calls() if re.search(r"core::str::<impl str>::starts_with$", t.callee or "")]
+        pairs = [(root(g, t.args[0]), root(g, t.args[1])) for t in sws]
+        sym = len(pairs) == 2 and pairs[0] == (pairs[1][1], pairs[1][0]) and pairs[0][0] != pairs[0][1] and all(x[0] == "param" for x in pairs[0])
+        cx.ob("R24.prefix-order", g.name + "|prefix-tested-both-ways-on-the-two-names", sym,
+              "the two starts_with tests are not a.starts_with(b) / b.starts_with(a) on the two compared names (%s)" % (pairs,), g.loc())
+        # which Ordering each prefix test yields
+        verdicts = []
+        for t in sws:
+            br = call_bool_branch(g, t)
+            v = None
+            if br:
+                for st in g.blocks[br[0]].stmts:
+                    if st.rv == "aggregate" and st.j.get("adt", "").endswith("cmp::Ordering") and st.dst.local == 0:
+                        v = st.j["variant"]
+            verdicts.append(v)
+        longer_first = sym and len(verdicts) == 2 and verdicts[0] == "Less" and verdicts[1] == "Greater" and pairs[0][0] == ("param", 1)
+        cx.ob("R24.prefix-order", g.name + "|extension-sorts-before-its-prefix", longer_first,
+              "when one name extends the other, the longer one must sort first (a.starts_with(b) => Less, b.starts_with(a) => "
+              "Greater); found %s" % verdicts, g.loc())
+        cmpc = [t for t in g.calls() if re.search(r"Ord>?::cmp$|Ord for str>::cmp$|PartialOrd.*::partial_cmp$|::then(_with)?$|::reverse$|cmp_by|sort", t.declared or t.callee or "")]
+        plain = len(cmpc) == 1 and re.search(r"Ord for str>::cmp$", cmpc[0].callee or "") and cmpc[0].dst is not None and cmpc[0].dst.local == 0 \
+            and sym and (root(g, cmpc[0].args[0]), root(g, cmpc[0].args[1])) == (("param", 1), ("param", 2))
+        cx.ob("R24.prefix-order", g.name + "|fallback-is-plain-string-order", bool(plain),
+              "prefix-longer-first combined with plain str::cmp on the same two names is a total order (strings compared as if "
+              "ended by a greatest sentinel); with any other fallback key (%s) the comparator is not transitive for "
+              "names related by the case-sensitive prefix test, and sort_by may place `Type.Foo` before `Type.FooBar`" % (
+                  [(t.callee or t.declared or "?").split("::")[-1] for t in cmpc]), g.loc())
+
